@@ -100,13 +100,15 @@ def qbytes_mm_impl_cuda(activations: torch.Tensor, weights: torch.Tensor, output
 
 @torch.library.impl("quanto::qbytes_mm", "CPU")
 def qbytes_mm_impl_cpu(activations: torch.Tensor, weights: torch.Tensor, output_scales: torch.Tensor) -> torch.Tensor:
+    in_features = activations.shape[-1]
     if (
         version.parse(torch.__version__).release >= version.parse("2.4.0").release
         and activations.dtype == torch.int8
         and weights.dtype == torch.int8
+        # torch._int_mm returns wrong sums on CPU when the inner dimension is one
+        and in_features > 1
     ):
         return qbytes_int_mm(activations, weights, output_scales)
-    in_features = activations.shape[-1]
     if (
         activations.dtype == torch.bfloat16
         and weights.dtype == torch.int8
